@@ -258,7 +258,7 @@ Definition item_action (c : cmd) (it : item) : action :=
 
 (* tag reports an error for one snapshot and takes the next one.  rewrite / repair cancel the listing at
    the first error; whether a snapshot already loaded by another worker is still processed depends on
-   ForAllSnapshots (intended: no; /repo ac05aded2 still lets one through in a race, see F-C26b).  The
+   ForAllSnapshots (since /repo 27dbf19ac: no; before, F-C26b).  The
    harness lists the snapshots that were actually taken up, so "continue" describes both behaviours;
    MAbort (strictly sequential abort) is covered by the theorems as well. *)
 Definition cmd_mode (c : cmd) : mode := match c with CTag _ _ _ => MContinue | CRewrite _ => MContinue end.
